@@ -8,10 +8,11 @@
    rotation fixing the centre; alignment.  NOT covered by a theorem: floating-point error of the same identities
    (measured at 1e-9 by the search), libm's cos/sin/atan2 (oracle values in the correspondence). *)
 
+From Flocq Require Import Core.   (* bpow, radix2 for the float statements; imported first so that [float] below is PrimFloat.float *)
 From Coq Require Import PrimFloat.
 From Coq Require Import ZArith List Bool Reals Lra Permutation String.
 From Coquelicot Require Import Coquelicot.
-From BZ Require Import Base.Ops Gen.Point Gen.Affine Gen.Line Gen.Quad Gen.Cubic Proofs.C09.
+From BZ Require Import Base.Ops Gen.Point Gen.Affine Gen.Line Gen.Quad Gen.Cubic Proofs.C09 Proofs.C09float Base.FloatErr Proofs.C01float.
 Import ListNotations.
 Open Scope R_scope.
 
@@ -102,6 +103,36 @@ Proof. exact scale_axes_zero. Qed.
 Theorem C09_invert_hypotheses_satisfiable :
   let m := M3 2 1 5 1 1 7 0 0 1 in affine_row m /\ m00 m * m11 m - m01 m * m10 m <> 0 /\ Point_transformed ROps (Point_transformed ROps (P 3 4) m) (Affine_invert ROps m) = P 3 4.
 Proof. exact invert_hypotheses_satisfiable. Qed.
+Theorem C09_line_transformed_eval_float_close :
+  forall A B M (s : seg2 float) (m : mat3 float) t, A * M + B <= Mcap -> seg2_ok M s -> mat_ok A B m -> t_ok t -> pt_close (Line_pointAtTime FOps (Line_transformed FOps s m) t) (Point_transformed ROps (Line_pointAtTime ROps (seg2R s) (FR t)) (matR m)) (33 * u * (A * M + B) + 12 * eta).
+Proof. exact line_transformed_eval_float_close. Qed.
+Theorem C09_quad_transformed_eval_float_close :
+  forall A B M (s : seg3 float) (m : mat3 float) t, A * M + B <= Mcap -> seg3_ok M s -> mat_ok A B m -> t_ok t -> pt_close (Quad_pointAtTime FOps (Quad_transformed FOps s m) t) (Point_transformed ROps (Quad_pointAtTime ROps (seg3R s) (FR t)) (matR m)) (104 * u * (A * M + B) + 22 * eta).
+Proof. exact quad_transformed_eval_float_close. Qed.
+Theorem C09_cubic_transformed_eval_float_close :
+  forall A B M (s : seg4 float) (m : mat3 float) t, A * M + B <= Mcap -> seg4_ok M s -> mat_ok A B m -> t_ok t -> pt_close (Cubic_pointAtTime FOps (Cubic_transformed FOps s m) t) (Point_transformed ROps (Cubic_pointAtTime ROps (seg4R s) (FR t)) (matR m)) (276 * u * (A * M + B) + 40 * eta).
+Proof. exact cubic_transformed_eval_float_close. Qed.
+Theorem C09_cubic_eval_transformed_float_close :
+  forall A B M (s : seg4 float) (m : mat3 float) t, M <= Mcap -> A * M + A + B <= Mcap -> seg4_ok M s -> mat_ok A B m -> t_ok t -> pt_close (Point_transformed FOps (Cubic_pointAtTime FOps s t) m) (Point_transformed ROps (Cubic_pointAtTime ROps (seg4R s) (FR t)) (matR m)) (156 * u * (A * M + A + B) + 5 * eta).
+Proof. exact cubic_eval_transformed_float_close. Qed.
+Theorem C09_line_transformed_commutes_float :
+  forall A B M (s : seg2 float) (m : mat3 float) t, M <= Mcap -> A * M + A + B <= Mcap -> seg2_ok M s -> mat_ok A B m -> t_ok t -> pt_near (Line_pointAtTime FOps (Line_transformed FOps s m) t) (Point_transformed FOps (Line_pointAtTime FOps s t) m) ((33 * u * (A * M + B) + 12 * eta) + (22 * u * (A * M + A + B) + 5 * eta)).
+Proof. exact line_transformed_commutes_float. Qed.
+Theorem C09_quad_transformed_commutes_float :
+  forall A B M (s : seg3 float) (m : mat3 float) t, M <= Mcap -> A * M + A + B <= Mcap -> seg3_ok M s -> mat_ok A B m -> t_ok t -> pt_near (Quad_pointAtTime FOps (Quad_transformed FOps s m) t) (Point_transformed FOps (Quad_pointAtTime FOps s t) m) ((104 * u * (A * M + B) + 22 * eta) + (60 * u * (A * M + A + B) + 5 * eta)).
+Proof. exact quad_transformed_commutes_float. Qed.
+Theorem C09_cubic_transformed_commutes_float :
+  forall A B M (s : seg4 float) (m : mat3 float) t, M <= Mcap -> A * M + A + B <= Mcap -> seg4_ok M s -> mat_ok A B m -> t_ok t -> pt_near (Cubic_pointAtTime FOps (Cubic_transformed FOps s m) t) (Point_transformed FOps (Cubic_pointAtTime FOps s t) m) ((276 * u * (A * M + B) + 40 * eta) + (156 * u * (A * M + A + B) + 5 * eta)).
+Proof. exact cubic_transformed_commutes_float. Qed.
+Theorem C09_cubic_translated_commutes_float :
+  forall B M (s : seg4 float) (v : pt float) t, M + B <= Mcap -> seg4_ok M s -> pt_ok B v -> t_ok t -> pt_near (Cubic_pointAtTime FOps (Cubic_translated FOps s v) t) (Point___add__ FOps (Cubic_pointAtTime FOps s t) v) ((163 * u * (M + B) + 16 * eta) + (83 * u * (M + B) + 9 * eta)).
+Proof. exact cubic_translated_commutes_float. Qed.
+Theorem C09_cubic_scaled_commutes_float :
+  forall A M (s : seg4 float) (k : float) t, M <= Mcap -> A * M + A <= Mcap -> seg4_ok M s -> ent_ok A k -> t_ok t -> pt_near (Cubic_pointAtTime FOps (Cubic_scaled FOps s k) t) (Point___mul__ FOps (Cubic_pointAtTime FOps s t) k) ((82 * u * (A * M) + 16 * eta) + (76 * u * (A * M + A) + 1 * eta)).
+Proof. exact cubic_scaled_commutes_float. Qed.
+Theorem C09_quad_transformed_commutes_example_1e11 :
+  pt_near (Quad_pointAtTime FOps (Quad_transformed FOps ex_quad ex_mat) ex_t) (Point_transformed FOps (Quad_pointAtTime FOps ex_quad ex_t) ex_mat) 1e-11.
+Proof. exact quad_transformed_commutes_example_1e11. Qed.
 
 Print Assumptions C09_transformed_commutes_eval_line.
 Print Assumptions C09_transformed_commutes_eval_quad.
@@ -132,3 +163,13 @@ Print Assumptions C09_call_order_example.
 Print Assumptions C09_call_order_example_swapped.
 Print Assumptions C09_scale_axes_zero.
 Print Assumptions C09_invert_hypotheses_satisfiable.
+Print Assumptions C09_line_transformed_eval_float_close.
+Print Assumptions C09_quad_transformed_eval_float_close.
+Print Assumptions C09_cubic_transformed_eval_float_close.
+Print Assumptions C09_cubic_eval_transformed_float_close.
+Print Assumptions C09_line_transformed_commutes_float.
+Print Assumptions C09_quad_transformed_commutes_float.
+Print Assumptions C09_cubic_transformed_commutes_float.
+Print Assumptions C09_cubic_translated_commutes_float.
+Print Assumptions C09_cubic_scaled_commutes_float.
+Print Assumptions C09_quad_transformed_commutes_example_1e11.
